@@ -145,7 +145,7 @@ def opcodes():
     yield ('is_reserved-agrees(16 opcodes)', bad is None, None if bad is None else dict(opcode=bad), 'enumeration')
 
 
-@ground('package.socket-ownership-scan', serves=['C11', 'C12'])
+@ground('package.socket-ownership-scan', serves=['C11', 'C12', 'C13'])
 def ownership_scan():
     """whole-package AST scan (every run): every call of sendall / shutdown / close on the object
     stored in self._sock is lexically inside `with self._lock`; sockets still local to _connect*
@@ -157,6 +157,7 @@ def ownership_scan():
     root = os.path.join(source.ROOT, 'lomond')
     bad = []
     flag_writers = set()
+    sock_clearers = set()
     n_calls = 0
     for fn in sorted(os.listdir(root)):
         if not fn.endswith('.py'):
@@ -187,9 +188,16 @@ def ownership_scan():
                     for t in targets:
                         if isinstance(t, ast.Attribute) and t.attr in ('closing', 'closed') and ast.unparse(t.value).endswith('state'):
                             flag_writers.add('%s:%s' % (fn[:-3], func))
+                        if isinstance(t, ast.Attribute) and t.attr == '_sock' and isinstance(child, ast.Assign) and \
+                                isinstance(child.value, ast.Constant) and child.value.value is None:
+                            sock_clearers.add('%s:%s' % (fn[:-3], func))
                 visit(child, il, f2)
         visit(tree, False, '')
     yield ('socket-calls-on-self._sock-only-under-the-lock(%d call sites)' % n_calls, not bad and n_calls >= 3, None if not bad else dict(sites=bad), 'AST scan')
+    # the session's socket is forgotten (self._sock = None) only where it has just been closed
+    yield ('session._sock-cleared-only-in-__init__-_close_socket-and-close', not (sock_clearers - {'session:WebsocketSession.__init__',
+           'session:WebsocketSession._close_socket', 'session:WebsocketSession.close'}), dict(others=sorted(sock_clearers)) if sock_clearers - {
+           'session:WebsocketSession.__init__', 'session:WebsocketSession._close_socket', 'session:WebsocketSession.close'} else None, 'AST scan')
     expected = {'websocket:WebSocket.State.__init__', 'websocket:WebSocket.close', 'websocket:WebSocket._on_close',
                 'websocket:WebSocket.on_disconnect', 'session:WebsocketSession.write'}
     extra = sorted(flag_writers - expected)
